@@ -23,6 +23,8 @@ def one(v, explicit, cls, has_type):
     vv = ver(v) if v is not None else [1]
     if explicit == 'same': cfg['api_version'] = v if v is not None else '1'
     if explicit == 'other': cfg['api_version'] = '2.5'
+    if explicit == 'prefix': cfg['api_version'] = '.'.join((v or '1').split('.')[:-1]) or (v or '1')     # fewer components (same if only one)
+    if explicit == 'longer': cfg['api_version'] = (v or '1') + '.0'                                       # one more component
     ev = None if explicit is None else ver(cfg['api_version'])
     w = mosaik.World({'X': cfg}, skip_greetings=True)
     obs = {}
@@ -69,7 +71,7 @@ def run(out, info, tier, seed):
     model = common.Model() if info.driver_ok else None
     if model is None: out.add_obligation('correspondence: extracted model available', False, info.driver_msg[-300:])
     violations, mism = [], []; n = 0; nontriv = 0; samples = []
-    for v, explicit, cls, has_type in itertools.product(VERSIONS, (None, 'same', 'other'), ('New', 'Old'), (True, False)):
+    for v, explicit, cls, has_type in itertools.product(VERSIONS, (None, 'same', 'other', 'prefix', 'longer'), ('New', 'Old'), (True, False)):
         n += 1
         vv, ev, obs = one(v, explicit, cls, has_type)
         compliant = cls == 'New'
@@ -102,7 +104,7 @@ def run(out, info, tier, seed):
         if mism: out.notes.append('first disagreements: ' + json.dumps(mism[:3], default=str))
     for v in violations[:1]: out.violations.append(v)
     out.coverage = {'evaluations': n, 'distinct_nontrivial': nontriv, 'exhaustive': True, 'traces_validated_against_impl': n if model else 0,
-                    'rule': f'version strings {VERSIONS} (None = api_version absent) x explicit api_version {{none, same, different}} x stub with {{v3, pre-v3}} signatures x type given or not, in-process; '
+                    'rule': f'version strings {VERSIONS} (None = api_version absent) x explicit api_version {{none, same, different, a proper prefix of the announced one, the announced one with one more component}} x stub with {{v3, pre-v3}} signatures x type given or not, in-process; '
                             'for accepted ones the requests setup_done/step/get_data are sent through the adapter chain and what reaches the simulator is recorded; non-trivial = accepted with an adapter or a patch level',
                     'samples': samples, 'monitor_failures': len(violations), 'correspondence_mismatches': len(mism)}
 
